@@ -7,6 +7,7 @@ void with_shape(const std::string &shape, F &&f)
     else if (shape == "tsd") f.template operator()<S_TSD>();
     else if (shape == "tsl") f.template operator()<S_TSL>();
     else if (shape == "dl") f.template operator()<S_DL>();
+    else if (shape == "pair") f.template operator()<S_PAIR>();
     else if (shape == "tsb") f.template operator()<S_TSB>();
     else if (shape == "tsw") f.template operator()<S_TSW>();
     else if (shape == "dss") f.template operator()<S_DSS>();
@@ -95,6 +96,13 @@ bool Interp::exec_coll(Interp &I, const Stmt &s)
         I.env[s.dst] = PortVal{out.template as<S_TSD>().erased(), PT::Other, "tsd"};
         return true;
     }
+    if (s.op == "pair")
+    {
+        // pair <a> <b>: a two-element list ASSEMBLED from two independent ports (structural, non-peered)
+        auto q = stdlib::to_tsl<S_PAIR>(w, I.pi(a.at(0)), I.pi(a.at(1))).template as<S_PAIR>();
+        I.env[s.dst] = PortVal{q.erased(), PT::Other, "pair"};
+        return true;
+    }
     if (s.op == "quad")
     {
         // quad <a> <b> <c> <d>: a 2x2 grid ASSEMBLED from four independent ports (a structural, non-peered source)
@@ -120,6 +128,12 @@ bool Interp::exec_coll(Interp &I, const Stmt &s)
     {
         // elem <tsl port> <i>: projection of one element of a fixed list output (siblings share the owning output)
         PortVal v = I.get(a.at(0));
+        if (v.shape == "pair")
+        {
+            auto e2 = tsl_element(Port<S_PAIR>{w, v.ref}, (std::size_t)std::atoll(a.at(1).c_str()));
+            I.env[s.dst] = PortVal{e2.erased(), PT::Int, "ts"};
+            return true;
+        }
         if (v.shape != "tsl") throw std::runtime_error("elem needs a tsl port");
         auto e = tsl_element(Port<S_TSL>{w, v.ref}, (std::size_t)std::atoll(a.at(1).c_str()));
         I.env[s.dst] = PortVal{e.erased(), PT::Int, "ts"};
@@ -225,6 +239,13 @@ bool Interp::exec_coll(Interp &I, const Stmt &s)
         if (s.kw.count("default")) sc.default_branch = wired_fn_for(s.kws("default"));
         if (s.kwi("reload", 0)) sc.reload_on_ticked = true;
         Port<void> out;
+        if (a.size() == 2 && I.get(a.at(1)).shape == "pair")
+        {
+            // one structured argument (a pair assembled from two ports) handed to the branches whole; the branches return pairs
+            out = wire<stdlib::switch_>(w, I.pi(a.at(0)), sc, Port<S_PAIR>{w, I.get(a.at(1)).ref});
+            I.env[s.dst] = PortVal{out.template as<S_PAIR>().erased(), PT::Other, "pair"};
+            return true;
+        }
         if (a.size() == 1) out = wire<stdlib::switch_>(w, I.pi(a.at(0)), sc);
         else if (a.size() == 2) out = wire<stdlib::switch_>(w, I.pi(a.at(0)), sc, I.pi(a.at(1)));
         else if (a.size() == 3) out = wire<stdlib::switch_>(w, I.pi(a.at(0)), sc, I.pi(a.at(1)), I.pi(a.at(2)));
